@@ -206,6 +206,10 @@ pub struct Script {
     /// tick, so the interleaving stays a function of the case.
     #[serde(default)]
     pub foreign_callers: bool,
+    /// what the transport's `poll_shutdown` does if anyone calls it: 0 completes, 1 never completes
+    /// (Pending, no wake-up), 2 fails with `error_kind` (a reset socket)
+    #[serde(default)]
+    pub shutdown_behaviour: u8,
 }
 
 pub fn error_kind(k: u8) -> io::ErrorKind {
@@ -220,7 +224,7 @@ impl Script {
     }
 
     pub fn new(steps: Vec<Step>) -> Script {
-        Script { sched_seed: 1, seg: SegPattern::Whole, replies: Vec::new(), steps, max_write: None, picture: None, broken_pipe: true, greeting: None, lazy_events: false, version: None, vectored: false, events_polled_last: false, error_kind: 0, real_ms_per_advance: 0, noise_connection: false, greeting_tail: None, foreign_callers: false }
+        Script { sched_seed: 1, seg: SegPattern::Whole, replies: Vec::new(), steps, max_write: None, picture: None, broken_pipe: true, greeting: None, lazy_events: false, version: None, vectored: false, events_polled_last: false, error_kind: 0, real_ms_per_advance: 0, noise_connection: false, greeting_tail: None, foreign_callers: false, shutdown_behaviour: 0 }
     }
 }
 
@@ -281,6 +285,7 @@ pub struct Server {
 pub struct Shared {
     /// the executor thread of `Script.foreign_callers`, if any (settle waits for it)
     pub foreign: Option<Arc<Foreign>>,
+    shutdown_behaviour: u8,
     pub outbox: Vec<u8>,
     released: usize,
     marks: VecDeque<usize>,
@@ -889,8 +894,14 @@ impl AsyncWrite for SimIo {
     }
 
     fn poll_shutdown(self: Pin<&mut Self>, _cx: &mut Context<'_>) -> Poll<io::Result<()>> {
-        self.0.lock().unwrap().shutdown_called = true;
-        Poll::Ready(Ok(()))
+        let mut s = self.0.lock().unwrap();
+        s.shutdown_called = true;
+        s.activity += 1;
+        match s.shutdown_behaviour {
+            1 => Poll::Pending,
+            2 => Poll::Ready(Err(io::Error::new(error_kind(s.error_kind), "harness: shutdown of a dead transport"))),
+            _ => Poll::Ready(Ok(())),
+        }
     }
 }
 
@@ -947,6 +958,7 @@ impl Drop for SimIo {
 pub fn new_io(script: &Script, password: Option<Password>) -> (SimIo, Handle) {
     let shared = Shared {
         foreign: None,
+        shutdown_behaviour: script.shutdown_behaviour,
         outbox: Vec::new(),
         released: 0,
         marks: VecDeque::new(),
@@ -1216,6 +1228,8 @@ pub struct Observation {
     pub broken_pipe_seen: bool,
     pub garbage_at: Option<(usize, usize)>,
     pub all_clients_dropped_by_script: bool,
+    /// index of the (outer) script step that issued request i
+    pub request_steps: Vec<usize>,
 }
 
 struct Running {
@@ -1235,26 +1249,36 @@ enum ForeignMsg {
 #[derive(Default)]
 struct ForeignState {
     inbox: Vec<ForeignMsg>,
-    wakes: usize,
+    /// (task, generation of the waker that was woken)
+    woken: Vec<(u64, u64)>,
     busy: bool,
     shutdown: bool,
 }
 
-/// A minimal executor on its own OS thread: polls every task it holds whenever one of them is woken or
-/// a message arrives.
+/// A minimal executor on its own OS thread. It is as strict as the `Future` contract allows: every poll
+/// of a task gets a brand-new waker, a task is polled again only when the waker of its MOST RECENT poll
+/// was woken (wake-ups through older wakers are ignored), and never "just in case".
 #[derive(Default)]
 pub struct Foreign {
     st: Mutex<ForeignState>,
     cv: std::sync::Condvar,
 }
 
-struct ForeignWaker(Arc<Foreign>);
+struct ForeignWaker(Arc<Foreign>, u64, u64);
 impl std::task::Wake for ForeignWaker {
     fn wake(self: Arc<Self>) {
         let mut s = self.0.st.lock().unwrap();
-        s.wakes += 1;
+        s.woken.push((self.1, self.2));
         self.0.cv.notify_all();
     }
+}
+
+struct ForeignTaskState {
+    id: u64,
+    fut: ForeignFuture,
+    tx: tokio::sync::oneshot::Sender<Outcome>,
+    generation: u64,
+    due: bool,
 }
 
 impl Foreign {
@@ -1271,36 +1295,49 @@ impl Foreign {
     }
 
     fn serve(self: &Arc<Self>) {
-        let mut tasks: Vec<(u64, ForeignFuture, tokio::sync::oneshot::Sender<Outcome>)> = Vec::new();
-        let waker = Waker::from(Arc::new(ForeignWaker(self.clone())));
+        let mut tasks: Vec<ForeignTaskState> = Vec::new();
         loop {
-            let msgs = {
+            let (msgs, woken) = {
                 let mut s = self.st.lock().unwrap();
-                while s.inbox.is_empty() && s.wakes == 0 && !s.shutdown {
+                while s.inbox.is_empty() && s.woken.is_empty() && !s.shutdown {
                     s = self.cv.wait(s).unwrap();
                 }
                 if s.shutdown && s.inbox.is_empty() {
                     return;
                 }
                 s.busy = true;
-                s.wakes = 0;
-                std::mem::take(&mut s.inbox)
+                (std::mem::take(&mut s.inbox), std::mem::take(&mut s.woken))
             };
             for m in msgs {
                 match m {
-                    ForeignMsg::Run(id, fut, tx) => tasks.push((id, fut, tx)),
-                    ForeignMsg::Drop(id) => tasks.retain(|t| t.0 != id),
+                    ForeignMsg::Run(id, fut, tx) => tasks.push(ForeignTaskState { id, fut, tx, generation: 0, due: true }),
+                    ForeignMsg::Drop(id) => tasks.retain(|t| t.id != id),
                 }
             }
-            let mut cx = Context::from_waker(&waker);
+            for (id, generation) in woken {
+                if let Some(t) = tasks.iter_mut().find(|t| t.id == id) {
+                    // only the waker handed out by the most recent poll counts
+                    if t.generation == generation {
+                        t.due = true;
+                    }
+                }
+            }
             let mut i = 0;
             while i < tasks.len() {
-                let polled = std::panic::catch_unwind(std::panic::AssertUnwindSafe(|| tasks[i].1.as_mut().poll(&mut cx)));
+                if !tasks[i].due {
+                    i += 1;
+                    continue;
+                }
+                tasks[i].due = false;
+                tasks[i].generation += 1;
+                let waker = Waker::from(Arc::new(ForeignWaker(self.clone(), tasks[i].id, tasks[i].generation)));
+                let mut cx = Context::from_waker(&waker);
+                let polled = std::panic::catch_unwind(std::panic::AssertUnwindSafe(|| tasks[i].fut.as_mut().poll(&mut cx)));
                 match polled {
                     Ok(Poll::Pending) => i += 1,
                     Ok(Poll::Ready(o)) => {
-                        let (_, _, tx) = tasks.remove(i);
-                        let _ = tx.send(o);
+                        let t = tasks.remove(i);
+                        let _ = t.tx.send(o);
                     }
                     // the sender is dropped without a value: the proxy task reports a panic
                     Err(_) => drop(tasks.remove(i)),
@@ -1320,7 +1357,7 @@ impl Foreign {
     /// Blocks (the calling thread, not the runtime) until the executor has nothing left to react to.
     pub fn wait_idle(&self) {
         let mut s = self.st.lock().unwrap();
-        while !s.inbox.is_empty() || s.wakes != 0 || s.busy {
+        while !s.inbox.is_empty() || !s.woken.is_empty() || s.busy {
             s = self.cv.wait(s).unwrap();
         }
     }
@@ -1433,6 +1470,7 @@ async fn drive(script: &Script, connect: Connect) -> Observation {
         broken_pipe_seen: false,
         garbage_at: None,
         all_clients_dropped_by_script: false,
+        request_steps: Vec::new(),
     };
 
     let connected = match &connect {
@@ -1563,6 +1601,7 @@ async fn drive(script: &Script, connect: Connect) -> Observation {
                     })
                 };
                 obs.requests.push((*caller, req.clone(), ReqState::Hung, pending));
+                obs.request_steps.push(si);
                 running.push(Running { handle, cancelled: false });
             }
             Step::Cancel(n) => {
